@@ -152,6 +152,7 @@ struct Case {
     ctor: String,
     /// a wrapped iterator that is not fused: this call of next() returns None spuriously (checker-only cases)
     gap: Option<u64>,
+    hintlie: i64,
 }
 
 fn on_parse(s: &str) -> Option<u64> {
@@ -220,6 +221,7 @@ fn read_cases(input: &mut dyn BufRead) -> Vec<Case> {
                     chunkstyle: String::new(),
                     ctor: String::new(),
                     gap: None,
+                    hintlie: 0,
                 })
             }
             "env" => {
@@ -265,6 +267,7 @@ fn read_cases(input: &mut dyn BufRead) -> Vec<Case> {
             "chunkstyle" => cur.as_mut().unwrap().chunkstyle = w[1].to_string(),
             "ctor" => cur.as_mut().unwrap().ctor = w[1].to_string(),
             "gap" => cur.as_mut().unwrap().gap = on_parse(w[1]),
+            "hintlie" => cur.as_mut().unwrap().hintlie = w[1].parse().unwrap(),
             "multi" => {
                 let c = cur.as_mut().unwrap();
                 c.multi = w[1].parse().unwrap();
@@ -1054,6 +1057,7 @@ fn run_case(case: &Case) -> Vec<String> {
     SRC_CALLS.store(0, Ordering::SeqCst);
     SRC_CRASH.store(case.env.crash.map(|x| x as usize).unwrap_or(usize::MAX), Ordering::SeqCst);
     SRC_GAP.store(case.gap.map(|x| x as usize).unwrap_or(usize::MAX), Ordering::SeqCst);
+    SRC_HINT_LIE.store(case.hintlie as isize, Ordering::SeqCst);
     CALLER_PHASE.store(false, Ordering::SeqCst);
     let env = &case.env;
     if case.multi > 0 {
